@@ -16,6 +16,7 @@ import (
 	"github.com/ipld/go-storethehash/store/primary"
 	mhprimary "github.com/ipld/go-storethehash/store/primary/multihash"
 	"github.com/ipld/go-storethehash/store/types"
+	"github.com/ipld/go-storethehash/store/verifhook"
 )
 
 /* An append-only log [`recordlist`]s.
@@ -853,6 +854,7 @@ func (idx *Index) Get(key []byte) (types.Block, bool, error) {
 	idx.bucketLk.RLock()
 	cached, indexOffset, fileNum, err := idx.readBucketInfo(bucket)
 	idx.bucketLk.RUnlock()
+	verifhook.Yield("index.Get.afterReadBucketInfo")
 	if err != nil {
 		return types.Block{}, false, fmt.Errorf("error reading bucket: %w", err)
 	}
@@ -897,6 +899,7 @@ func (idx *Index) Flush() (types.Work, error) {
 	idx.nextPool = make(bucketPool, bucketPoolSize)
 	idx.outstandingWork = 0
 	idx.bucketLk.Unlock()
+	verifhook.Yield("index.Flush.afterSwap")
 
 	blks := make([]bucketBlock, 0, len(idx.curPool))
 	var work types.Work
@@ -912,6 +915,7 @@ func (idx *Index) Flush() (types.Work, error) {
 	if err != nil {
 		return 0, fmt.Errorf("cannot flush data to index file %s: %w", idx.file.Name(), err)
 	}
+	verifhook.Yield("index.Flush.afterWrite")
 	idx.bucketLk.Lock()
 	defer idx.bucketLk.Unlock()
 	for _, blk := range blks {
